@@ -18,7 +18,7 @@ func makeOverlay(tmp string) (string, error) {
 	if err := os.MkdirAll(dir, 0o755); err != nil {
 		return "", err
 	}
-	return instrument.MakeOverlay("/repo/v2/drivers/midicatdrv", dir)
+	return instrument.MakeOverlay(repoRoot+"/v2/drivers/midicatdrv", dir)
 }
 
 var reRaceFunc = regexp.MustCompile(`(?m)^\s+gitlab\.com/gomidi/midi/v2/drivers/(\S+)\(\)$`)
